@@ -293,6 +293,7 @@ func parseType(remoteType IntrospectionQueryFullType) *ast.Definition {
 			definition.EnumValues = append(definition.EnumValues, &ast.EnumValueDefinition{
 				Name:        value.Name,
 				Description: value.Description,
+				Directives:  parseDeprecation(value.IsDeprecated, value.DeprecationReason),
 			})
 		}
 	}
@@ -307,6 +308,7 @@ func parseType(remoteType IntrospectionQueryFullType) *ast.Definition {
 			Type:        parseTypeRef(&field.Type),
 			Description: field.Description,
 			Arguments:   parseArgList(field.Args),
+			Directives:  parseDeprecation(field.IsDeprecated, field.DeprecationReason),
 		})
 	}
 
@@ -318,6 +320,22 @@ func parseType(remoteType IntrospectionQueryFullType) *ast.Definition {
 	definition.Fields = fields
 
 	return definition
+}
+
+func parseDeprecation(isDeprecated bool, reason string) ast.DirectiveList {
+	if !isDeprecated {
+		return nil
+	}
+
+	return ast.DirectiveList{{
+		Position: &ast.Position{},
+		Name:     "deprecated",
+		Arguments: ast.ArgumentList{{
+			Position: &ast.Position{},
+			Name:     "reason",
+			Value:    &ast.Value{Position: &ast.Position{}, Raw: reason, Kind: ast.StringValue},
+		}},
+	}}
 }
 
 func parseInputField(field IntrospectionInputValue) *ast.FieldDefinition {
